@@ -24,10 +24,766 @@ from concurrent.futures import ThreadPoolExecutor
 
 from . import common as C
 from . import progs as PR
-from .c01gen import (gen_program, enc_prog, render, fn_bodies, js_skeleton, EXOTIC_LOCALS, LABEL_NAMES)
 
-THEOREMS = ["direct_correct", "direct_unique", "direct_correct_ctx", "interp_sound_js", "drivers_agree"]
-ENV_THEOREMS = []
+# ======================================================================================
+# generator, encoder, Go renderer and JS skeleton extractor.  A program is drawn as a term of the model's language first
+# (GV.Ctrl statements over tables of concrete actions / conditions / call sites, see lean/GV/Driver/C01.lean) and rendered
+# to Go second, so the Lean driver can evaluate it.
+# ======================================================================================
+
+ZERO = 12
+MODV = 1009
+
+# identifiers that are JavaScript reserved words, globals, property names of Object.prototype, names the compiler itself
+# uses for temporaries, and non-ASCII identifiers.  (`console`, `Number`, `Uint8Array` are known findings, replayed apart.)
+EXOTIC_LOCALS = ["arguments", "eval", "static", "let", "of", "undefined", "NaN", "Math", "Array", "Object", "String", "Date",
+                 "Error", "Symbol", "Map", "Function", "JSON", "Infinity", "isNaN", "parseInt", "globalThis", "process",
+                 "require", "module", "window", "self", "global", "Promise", "Boolean", "Set", "Int32Array", "Float64Array",
+                 "err", "async", "await", "yield", "name", "length", "constructor", "prototype", "toString",
+                 "hasOwnProperty", "valueOf", "__proto__", "this", "new", "delete", "typeof", "void", "with", "class",
+                 "enum", "export", "extends", "super", "throw", "try", "catch", "finally", "function", "in", "instanceof",
+                 "do", "while", "null", "debugger", "implements", "private", "public", "protected", "abstract", "boolean",
+                 "byte", "char", "double", "final", "float", "long", "native", "short", "synchronized", "throws",
+                 "transient", "volatile", "using", "DataView",
+                 "_tmp", "_tuple", "_index", "_ptr", "_struct", "_slice", "_val", "_i", "_ref", "_key", "_r", "_q", "_v",
+                 "_entry", "x", "y", "obj", "param", "$_", "é", "变", "ñ9", "Ω_1", "a·b"]
+EXOTIC_LOCALS = [n for n in EXOTIC_LOCALS if "$" not in n and "·" not in n]
+PLAIN_LOCALS = ["v%d" % i for i in range(8)] + ["k", "n", "w", "acc", "idx", "tmp", "lo", "hi"]
+EXOTIC_GLOBALS = ["arguments", "eval", "static", "let", "of", "undefined", "async", "await", "yield", "name", "self", "window",
+                  "global", "process", "require", "module", "length", "constructor", "prototype", "toString", "valueOf",
+                  "this", "new", "delete", "typeof", "void", "with", "class", "enum", "super", "throw", "try", "function",
+                  "Math", "Array", "Object", "String", "NaN", "Infinity", "Symbol", "Map", "Error", "é", "_tmp", "_r"]
+LABEL_NAMES = ["class", "let", "static", "enum", "await", "arguments", "eval", "of", "async", "delete", "new", "this",
+               "typeof", "void", "with", "yield", "super", "throw", "try", "catch", "do", "while", "in", "function"]
+# names the generated helper code uses; never handed out as variable names
+HELPERS = {"at", "ix", "tr", "pg", "ps", "cnd", "cnq", "cl", "push", "runfs", "two", "h3", "P", "S", "T", "arr", "mp", "sv", "sl",
+           "fs", "tv", "main", "r"}
+
+
+class Gen:
+    def __init__(self, rng, size, maxdepth=5, focus=None):
+        self.rng = rng
+        self.size = size
+        self.maxdepth = maxdepth
+        self.focus = focus or {}
+        self.acts = []      # [kind, a, b, c, d, e]
+        self.conds = []     # [x, k, m, t, p]
+        self.calls = []     # dict(callee, arg, dst, go)
+        self.nlabels = 0
+        self.fns = []       # dict(body, names[8], labels{n: name})
+        self.kinds = {}
+        self.gnames = []
+
+    def count(self, k):
+        self.kinds[k] = self.kinds.get(k, 0) + 1
+
+    def anyvar(self, cells=True):
+        r = self.rng
+        if cells and r.random() < 0.2:
+            return r.randrange(13, 29)
+        return r.choice([0, 1, 2, 3, 8, 9, 10, 11, ZERO])
+
+    def namedvar(self):
+        return self.rng.choice([0, 1, 2, 3, 8, 9, 10, 11])
+
+    def dstvar(self):
+        return self.rng.choice([0, 1, 1, 2, 3, 8, 9, 10, 11])
+
+    def add_act(self, row):
+        self.acts.append(list(row))
+        return len(self.acts) - 1
+
+    def new_act(self, simple=False):
+        """simple=True: must render as ONE Go simple statement (usable as a for-post statement)"""
+        r = self.rng
+        w = {"plain": 4, "opassign": 4, "swap": 1, "rotate": 0.7, "tuple": 0.8}
+        if not simple:
+            w.update({"evalorder": 2.5, "closure": 0.8, "runfs": 0.5, "shadow": 1.2})
+        for k, f in self.focus.get("act", {}).items():
+            if k in w:
+                w[k] *= f
+        ks = list(w)
+        k = r.choices(ks, [w[x] for x in ks])[0]
+        self.count("act:" + k)
+        if k == "plain":
+            return self.add_act([0, self.dstvar(), self.anyvar(), self.anyvar(), r.randrange(0, 30),
+                                 0 if simple else (1 if r.random() < 0.7 else 0)])
+        if k == "opassign":
+            lv = r.choice([0, 1, 2, 3, 4, 5, 5, 6])
+            op = r.choice([0, 0, 1, 4]) if lv == 6 else r.choice([0, 0, 1, 2, 3, 4])
+            self.count("opassign:lv%d" % lv)
+            self.count("opassign:op%d" % op)
+            x = self.dstvar() if lv == 6 else self.anyvar(cells=False)
+            return self.add_act([1, lv, x, op, self.anyvar(), 0])
+        if k == "swap":
+            return self.add_act([2, r.randrange(0, 4), self.anyvar(cells=False), self.anyvar(cells=False), 0, 0])
+        if k == "rotate":
+            a, b, c = r.sample([0, 1, 2, 3, 8, 9, 10, 11], 3)
+            return self.add_act([3, a, b, c, 0, 0])
+        if k == "tuple":
+            d1, d2 = r.sample([0, 1, 2, 3, 8, 9, 10, 11], 2)
+            return self.add_act([9, d1, d2, self.anyvar(), self.anyvar(), 0])
+        if k == "evalorder":
+            form = r.randrange(0, 5)
+            self.count("evalorder:form%d" % form)
+            z = self.namedvar() if form == 4 else self.anyvar()
+            return self.add_act([4, self.dstvar(), self.anyvar(), self.anyvar(), z, form])
+        if k == "closure":
+            return self.add_act([5, self.anyvar(), r.randrange(1, 9), 0, 0, 0])
+        if k == "runfs":
+            return self.add_act([6, 0, 0, 0, 0, 0])
+        if k == "shadow":
+            x = self.namedvar()
+            dst = r.choice([v for v in [0, 1, 2, 3, 8, 9, 10, 11] if v != x])
+            return self.add_act([7, dst, x, r.randrange(0, 30), 0, 0])
+        raise AssertionError(k)
+
+    def new_cond(self, x=None, k=None, m=None, t=None, p=None):
+        r = self.rng
+        m = r.choice([2, 3, 4, 5]) if m is None else m
+        c = [self.anyvar() if x is None else x, r.randrange(0, 9) if k is None else k, m,
+             r.randrange(1, m) if t is None else t, (1 if r.random() < 0.5 else 0) if p is None else p]
+        self.conds.append(c)
+        return len(self.conds) - 1
+
+    def new_call(self, j):
+        go = self.rng.choice(["direct", "direct", "funcvalue", "method"])
+        self.count("call:" + go)
+        self.calls.append(dict(callee=j, arg=self.anyvar(), dst=self.dstvar(), go=go))
+        return len(self.calls) - 1
+
+    def stmts(self, ctx, n, tail_branch=True):
+        out = []
+        for i in range(n):
+            if ctx["budget"][0] <= 0:
+                break
+            out.append(self.stmt(ctx, i == n - 1 and tail_branch))
+        return out
+
+    def stmt(self, ctx, may_branch):
+        r = self.rng
+        ctx["budget"][0] -= 1
+        d = ctx["depth"]
+        w = {"act": 7}
+        if ctx["fi"] + 1 < ctx["nf"]:
+            w["fn"] = 1.5
+        if d < self.maxdepth:
+            w["if"] = 3
+            w["switch"] = 2.5
+            w["block"] = 0.4
+            if ctx["ld"] < 3:
+                w["loop"] = 3
+        if may_branch:
+            if ctx["brk"]:
+                w["break"] = 2
+            if ctx["loops"]:
+                w["continue"] = 2.5
+            if d > 0:
+                w["return"] = 0.5
+        for k, f in self.focus.get("stmt", {}).items():
+            if k in w:
+                w[k] *= f
+        ks = list(w)
+        k = r.choices(ks, [w[x] for x in ks])[0]
+        self.count("stmt:" + k)
+        if k == "act":
+            return ("A", self.new_act())
+        if k == "fn":
+            return ("C", self.new_call(r.randrange(ctx["fi"] + 1, ctx["nf"])))
+        if k == "block":
+            return ("{", self.stmts(dict(ctx, depth=d + 1), r.randrange(1, 3)))
+        if k == "return":
+            return ("R",)
+        if k == "break":
+            cands = [x for x in ctx["brk"] if x[0] is not None]
+            if cands and r.random() < 0.45:
+                lab, refs = r.choice(cands)
+                refs.append(1)
+                self.count("break:labelled")
+                return ("B", lab)
+            return ("B", None)
+        if k == "continue":
+            cands = [x for x in ctx["loops"] if x[0] is not None]
+            if cands and r.random() < 0.45:
+                lab, refs = r.choice(cands)
+                refs.append(1)
+                self.count("continue:labelled")
+                return ("T", lab)
+            return ("T", None)
+        if k == "if":
+            return self.gen_if(ctx, r.randrange(1, 4))
+        if k == "switch":
+            return self.gen_switch(ctx)
+        if k == "loop":
+            return self.gen_loop(ctx)
+        raise AssertionError(k)
+
+    def gen_if(self, ctx, nclauses):
+        r = self.rng
+        c2 = dict(ctx, depth=ctx["depth"] + 1)
+        c = self.new_cond()
+        then = self.stmts(c2, r.randrange(1, 3))
+        if nclauses > 1:
+            els = self.gen_if(ctx, nclauses - 1)
+        elif r.random() < 0.5:
+            els = ("{", self.stmts(c2, r.randrange(1, 3)))
+        else:
+            els = None
+        return ("I", c, then, els)
+
+    def new_label(self):
+        self.nlabels += 1
+        return self.nlabels
+
+    def gen_switch(self, ctx):
+        r = self.rng
+        lab = self.new_label() if r.random() < 0.4 else None
+        refs = []
+        c2 = dict(ctx, depth=ctx["depth"] + 1, brk=ctx["brk"] + [(lab, refs)])
+        ncl = r.randrange(1, 4)
+        clauses = []
+        for _ in range(ncl):
+            clauses.append((self.new_cond(), self.stmts(c2, r.randrange(1, 3))))
+        default = self.stmts(c2, r.randrange(1, 3)) if r.random() < 0.6 else None
+        if default is not None and len(default) == 0:
+            default = None
+        nlast = len(clauses) - 1 if default is None else len(clauses)
+        ft = [i < nlast and r.random() < 0.25 for i in range(len(clauses))]
+        if any(ft):
+            self.count("switch:fallthrough")
+        return ("W", lab if refs else None, clauses, default, ft)
+
+    def gen_loop(self, ctx):
+        r = self.rng
+        ld = ctx["ld"]
+        cv = 4 + ld
+        lab = self.new_label() if r.random() < 0.55 else None
+        refs = []
+        bound = r.randrange(1, 4)
+        variant = r.choice(["post-act", "post-act", "post-opassign", "post-call", "cond-only", "forever"])
+        if variant == "post-call" and ctx["fi"] + 1 >= ctx["nf"]:
+            variant = "post-act"
+        self.count("loop:" + variant)
+        init = ("A", self.add_act([0, cv, ZERO, ZERO, 0, 0]))
+        cond = self.new_cond(x=cv, k=0, m=MODV, t=bound, p=1 if r.random() < 0.3 else 0)
+        c2 = dict(ctx, depth=ctx["depth"] + 1, ld=ld + 1, loops=ctx["loops"] + [(lab, refs)], brk=ctx["brk"] + [(lab, refs)])
+        pre = []
+        post = None
+        lc = cond
+        inc = lambda: ("A", self.add_act([0, cv, cv, ZERO, 1, 0]))
+        if variant == "post-act":
+            post = ("a", inc()[1])
+        elif variant == "post-opassign":
+            # the counter is advanced at the top of the body; the post statement is an op-assign / swap / tuple action
+            pre = [inc()]
+            post = ("a", self.new_act(simple=True))
+        elif variant == "post-call":
+            pre = [inc()]
+            post = ("c", self.new_call(r.randrange(ctx["fi"] + 1, ctx["nf"])))
+        elif variant == "cond-only":
+            pre = [inc()]
+        else:
+            lc = None
+            nc = self.new_cond(x=cv, k=MODV - bound, m=MODV, t=MODV - bound, p=0)
+            pre = [("I", nc, [("B", None)], None), inc()]
+        body = pre + self.stmts(c2, r.randrange(1, 4))
+        return ("{", [init, ("L", lab if refs else None, lc, post, body)])
+
+    def pick_names(self, pool_exotic, pool_plain, n, avoid):
+        r = self.rng
+        names = []
+        while len(names) < n:
+            c = r.choice(pool_exotic) if r.random() < 0.6 else r.choice(pool_plain)
+            if c not in names and c not in avoid and c not in HELPERS:
+                names.append(c)
+        return names
+
+    def gen_fn(self, fi, nf):
+        ctx = dict(fi=fi, nf=nf, depth=0, ld=0, loops=[], brk=[], budget=[self.size])
+        l0 = self.nlabels
+        body = self.stmts(ctx, self.rng.randrange(2, 6), tail_branch=False)
+        body.append(("R",))
+        names = self.pick_names(EXOTIC_LOCALS, PLAIN_LOCALS, 8, set(self.gnames))
+        labels = {}
+        used = set()
+        for n in range(l0 + 1, self.nlabels + 1):
+            if self.rng.random() < 0.5:
+                c = self.rng.choice(LABEL_NAMES)
+                if c not in used:
+                    used.add(c)
+                    labels[n] = c
+                    continue
+            labels[n] = "L%d" % n
+        self.fns.append(dict(body=body, names=names, labels=labels))
+
+
+def gen_program(rng, size, maxdepth=5, focus=None):
+    g = Gen(rng, size, maxdepth, focus)
+    g.gnames = g.pick_names(EXOTIC_GLOBALS, ["g0", "g1", "g2", "g3", "total", "state"], 4, set())
+    nf = rng.randrange(1, 6)
+    for fi in range(nf):
+        g.gen_fn(fi, nf)
+    return g
+
+
+# --------------------------------------------------------------------------------------
+# encoding for the Lean driver (same prefix grammar as the C02 driver)
+# --------------------------------------------------------------------------------------
+
+def lab(l):
+    return "-" if l is None else str(l)
+
+
+def enc_list(stmts):
+    if not stmts:
+        return ["K"]
+    if len(stmts) == 1:
+        return enc_stmt(stmts[0])
+    return ["S"] + enc_stmt(stmts[0]) + enc_list(stmts[1:])
+
+
+def enc_else(els):
+    if els is None:
+        return ["K"]
+    if els[0] == "I":
+        return enc_stmt(els)
+    return ["{"] + enc_list(els[1])
+
+
+def enc_default(body):
+    # astrewrite toElseBranch: a default body that is a single if / block statement becomes the else branch itself
+    if body is None:
+        return ["K"]
+    if len(body) == 1 and body[0][0] in ("I", "{"):
+        return enc_stmt(body[0])
+    return ["{"] + enc_list(body)
+
+
+def enc_stmt(s):
+    k = s[0]
+    if k == "A":
+        return ["A", str(s[1])]
+    if k == "C":
+        return ["C", str(s[1])]
+    if k == "{":
+        return ["{"] + enc_list(s[1])
+    if k == "R":
+        return ["R"]
+    if k == "B":
+        return ["B", lab(s[1])]
+    if k == "T":
+        return ["T", lab(s[1])]
+    if k == "I":
+        return ["I", str(s[1])] + enc_list(s[2]) + enc_else(s[3])
+    if k == "L":
+        post = ["N"] if s[3] is None else [s[3][0], str(s[3][1])]
+        return ["L", lab(s[1]), lab(s[2])] + post + enc_list(s[4])
+    if k == "W":
+        bodies = [list(b) for _, b in s[2]] + ([list(s[3])] if s[3] is not None else [])
+        ft = list(s[4]) + ([False] if s[3] is not None else [])
+        eff = []
+        for i in range(len(bodies)):
+            acc = list(bodies[i])
+            j = i
+            while ft[j]:
+                j += 1
+                acc += bodies[j]
+            eff.append(acc)
+
+        def chain(i):
+            if i == len(s[2]):
+                return enc_default(eff[i] if s[3] is not None else None)
+            return ["I", str(s[2][i][0])] + enc_list(eff[i]) + chain(i + 1)
+        return ["W", lab(s[1])] + chain(0)
+    raise AssertionError(k)
+
+
+def enc_prog(g):
+    def tab(rows):
+        return ";".join(".".join(str(x) for x in r) for r in rows) if rows else "-"
+    return "%s/%s/%s/%s" % (tab(g.acts), tab(g.conds), tab([(c["callee"], c["arg"], c["dst"]) for c in g.calls]),
+                            ";".join(",".join(enc_list(f["body"])) for f in g.fns))
+
+
+# --------------------------------------------------------------------------------------
+# rendering to Go
+# --------------------------------------------------------------------------------------
+
+PRELUDE = """package main
+
+var %(G0)s, %(G1)s, %(G2)s, %(G3)s int = 1, 2, 3, 5
+
+var arr = [4]int{10, 20, 30, 40}
+var mp = map[int]int{}
+var sl = []int{5, 9, 2, 6}
+
+type S struct {
+	x [4]int
+	n int
+}
+
+var sv = S{x: [4]int{3, 1, 4, 1}}
+
+type P struct{ a, b int }
+
+func (p P) sum() int { return (p.a + 5*p.b) %% 1009 }
+
+func (s *S) m(a, b int) int { return (a + 3*b + s.x[0]) %% 1009 }
+
+var fs []func() int
+
+func at(id, x int) int { return x }
+func cl(id, x int) int { return x }
+func ix(id, x int) int { println("i", id, x&3); return x & 3 }
+func tr(id, y int) int { println("t", id, y); return y }
+func cnd(id int, b bool) bool { println("c", id, b); return b }
+func cnq(id int, b bool) bool { return b }
+func ps(id int) *S { println("s", id); return &sv }
+func two(a, b int) (int, int) { return b, a }
+func h3(a, b, c int) int { return (a + 2*b + 3*c) %% 1009 }
+
+func pg(id, x int) *int {
+	println("p", id, x&3)
+	switch x & 3 {
+	case 0:
+		return &%(G0)s
+	case 1:
+		return &%(G1)s
+	case 2:
+		return &%(G2)s
+	}
+	return &%(G3)s
+}
+
+func push(id int, f func() int) {
+	if len(fs) < 6 {
+		fs = append(fs, f)
+	}
+}
+
+func runfs(id int) {
+	for _, f := range fs {
+		println("f", id, f())
+	}
+}
+
+type T struct{ pad int }
+
+var tv T
+"""
+
+CELLS = ["arr[%d]", "mp[%d]", "sv.x[%d]", "sl[%d]"]
+OPS = {0: "+=", 1: "-="}
+
+
+class Render:
+    def __init__(self, g):
+        self.g = g
+        self.out = []
+        self.names = None
+        self.labels = None
+
+    def emit(self, ind, s):
+        self.out.append("\t" * ind + s)
+
+    def vn(self, v):
+        if v < 8:
+            return self.names[v]
+        if v < 12:
+            return self.g.gnames[v - 8]
+        if v == ZERO:
+            return "0"
+        return CELLS[(v - 13) // 4] % ((v - 13) % 4)
+
+    def cond(self, cid):
+        x, k, m, t, p = self.g.conds[cid]
+        return "%s(%d, (%s+%d)%%%d < %d)" % ("cnd" if p else "cnq", cid, self.vn(x), k, m, t)
+
+    def act_lines(self, aid):
+        """Go statements of action `aid` (a list; the first one alone when used as a for-post statement)"""
+        kind, a, b, c, d, e = self.g.acts[aid]
+        vn = self.vn
+        if kind == 0:
+            ls = ["%s = at(%d, (%s + 2*%s + %d) %% 1009)" % (vn(a), aid, vn(b), vn(c), d)]
+            if e:
+                ls.append('println("a", %d, %s)' % (aid, vn(a)))
+            return ls
+        if kind == 1:
+            lv, x, op, y = a, b, c, d
+            i = "ix(%d, %s)" % (aid, vn(x))
+            lhs = ["arr[%s]" % i, "*pg(%d, %s)" % (aid, vn(x)), "mp[%s]" % i, "sv.x[%s]" % i, "sl[%s]" % i,
+                   "ps(%d).x[%s]" % (aid, i), vn(x)][lv]
+            if op in OPS:
+                return ["%s %s tr(%d, %s)" % (lhs, OPS[op], aid, vn(y))]
+            if op == 2:
+                return [lhs + "++"]
+            if op == 3:
+                return [lhs + "--"]
+            return ["%s %%= tr(%d, %s)&7 + 1" % (lhs, aid, vn(y))]
+        if kind == 2:
+            cell = ["arr[%s]", "mp[%s]", "sv.x[%s]", "sl[%s]"][a]
+            i, j = "%s&3" % vn(b), "%s&3" % vn(c)
+            return ["%s, %s = %s, %s" % (cell % i, cell % j, cell % ("at(%d, %s)&3" % (aid, vn(c))), cell % i)]
+        if kind == 3:
+            return ["%s, %s, %s = %s, %s, at(%d, %s)" % (vn(a), vn(b), vn(c), vn(b), vn(c), aid, vn(a))]
+        if kind == 9:
+            return ["%s, %s = two(tr(%d, %s), tr(%d, %s))" % (vn(a), vn(b), aid, vn(c), aid + 1000, vn(d))]
+        if kind == 4:
+            dst, x, y, z, form = a, b, c, d, e
+            t0, t1, t2 = "tr(%d, %s)" % (aid, vn(x)), "tr(%d, %s)" % (aid + 1000, vn(y)), "tr(%d, %s)" % (aid + 2000, vn(z))
+            ex = ["(%s - (%s&63)*(%s&63)) %% 1009" % (t0, t1, t2),
+                  "h3(%s, %s, %s)" % (t0, t1, t2),
+                  "ps(%d).m(%s, %s)" % (aid, t0, t1),
+                  "P{%s, %s}.sum()" % (t0, t1),
+                  "func(a, b int) int { return (a + 7*b + %s) %% 1009 }(%s, %s)" % (vn(z), t0, t1)][form]
+            return ["%s = at(%d, %s)" % (vn(dst), aid, ex), 'println("a", %d, %s)' % (aid, vn(dst))]
+        if kind == 5:
+            return ["{ j := %s; push(%d, func() int { j += %d; return j }) }" % (vn(a), aid, b)]
+        if kind == 6:
+            return ["runfs(%d)" % aid]
+        if kind == 7:
+            dst, x, k = a, b, c
+            n = vn(x)
+            return ["{ %s := %s + 1; { %s := %s * 2; { %s := %s + %d; { %s := %s %% 1009; %s = at(%d, %s) } } } }" % (
+                n, n, n, n, n, n, k, n, n, vn(dst), aid, n), 'println("a", %d, %s)' % (aid, vn(dst))]
+        raise AssertionError(kind)
+
+    def call_stmt(self, cid):
+        c = self.g.calls[cid]
+        a = "cl(%d, %s)" % (cid, self.vn(c["arg"]))
+        j = c["callee"]
+        e = {"direct": "F%d(%s)", "funcvalue": "fF%d(%s)", "method": "tv.CallF%d(%s)"}[c["go"]] % (j, a)
+        return "%s = %s" % (self.vn(c["dst"]), e)
+
+    def block(self, stmts, ind):
+        for s in stmts:
+            self.stmt(s, ind)
+
+    def stmt(self, s, ind):
+        k = s[0]
+        if k == "A":
+            for l in self.act_lines(s[1]):
+                self.emit(ind, l)
+        elif k == "C":
+            self.emit(ind, self.call_stmt(s[1]))
+        elif k == "{":
+            self.emit(ind, "{")
+            self.block(s[1], ind + 1)
+            self.emit(ind, "}")
+        elif k == "R":
+            self.emit(ind, "return " + self.names[1])
+        elif k == "B":
+            self.emit(ind, "break" + ("" if s[1] is None else " " + self.labels[s[1]]))
+        elif k == "T":
+            self.emit(ind, "continue" + ("" if s[1] is None else " " + self.labels[s[1]]))
+        elif k == "I":
+            self.render_if(s, ind, "if")
+        elif k == "L":
+            if s[1] is not None:
+                self.emit(max(ind - 1, 0), self.labels[s[1]] + ":")
+            cond = "" if s[2] is None else self.cond(s[2])
+            if s[3] is None:
+                head = "for %s{" % (cond + " " if cond else "")
+            else:
+                post = self.act_lines(s[3][1])[0] if s[3][0] == "a" else self.call_stmt(s[3][1])
+                head = "for ; %s; %s {" % (cond, post)
+            self.emit(ind, head)
+            self.block(s[4], ind + 1)
+            self.emit(ind, "}")
+        elif k == "W":
+            if s[1] is not None:
+                self.emit(max(ind - 1, 0), self.labels[s[1]] + ":")
+            self.emit(ind, "switch {")
+            for i, (c, b) in enumerate(s[2]):
+                self.emit(ind, "case %s:" % self.cond(c))
+                self.block(b, ind + 1)
+                if s[4][i]:
+                    self.emit(ind + 1, "fallthrough")
+            if s[3] is not None:
+                self.emit(ind, "default:")
+                self.block(s[3], ind + 1)
+            self.emit(ind, "}")
+        else:
+            raise AssertionError(k)
+
+    def render_if(self, s, ind, kw):
+        self.emit(ind, "%s %s {" % (kw, self.cond(s[1])))
+        self.block(s[2], ind + 1)
+        els = s[3]
+        if els is None:
+            self.emit(ind, "}")
+        elif els[0] == "I":
+            self.render_if(els, ind, "} else if")
+        else:
+            self.emit(ind, "} else {")
+            self.block(els[1], ind + 1)
+            self.emit(ind, "}")
+
+    def program(self):
+        g = self.g
+        gn = g.gnames
+        self.out = [PRELUDE % dict(G0=gn[0], G1=gn[1], G2=gn[2], G3=gn[3])]
+        for fi, f in enumerate(g.fns):
+            self.names = f["names"]
+            self.labels = f["labels"]
+            n = self.names
+            self.emit(0, "func F%d(%s int) int {" % (fi, n[0]))
+            self.emit(1, "var %s int" % ", ".join(n[1:]))
+            self.emit(1, "%s = %s" % (", ".join(["_"] * 7), ", ".join(n[1:])))
+            self.block(f["body"], 1)
+            self.emit(0, "}")
+            self.emit(0, "")
+            self.emit(0, "var fF%d func(int) int" % fi)
+            self.emit(0, "")
+            self.emit(0, "func (t T) CallF%d(x int) int { return F%d(x + t.pad) }" % (fi, fi))
+            self.emit(0, "")
+        self.emit(0, "func main() {")
+        for fi in range(len(g.fns)):
+            self.emit(1, "fF%d = F%d" % (fi, fi))
+        self.emit(1, "r := F0(0)")
+        self.emit(1, 'println("r", r, %s)' % ", ".join(gn))
+        self.emit(1, "runfs(0)")
+        self.emit(1, 'println("m", %s)' % ", ".join(c % i for c in CELLS for i in range(4)))
+        self.emit(0, "}")
+        return "\n".join(self.out) + "\n"
+
+
+def render(g):
+    return {"main.go": Render(g).program()}
+
+
+# --------------------------------------------------------------------------------------
+# skeleton of the emitted JavaScript
+# --------------------------------------------------------------------------------------
+
+_MARK = re.compile(r"(?<![\w$.])(at|ix|tr|pg|ps|push|runfs|cl|cnd|cnq)\((\d+)[,)]")
+_TMPDEF = re.compile(r"(?<![\w$.])(_slice|_index|_struct|_ptr|_val)(?:\$\d+)? = ")
+_LABEL_LINE = re.compile(r"^([^\s:(){};=]+):$")
+
+
+def fn_bodies(js, nfn):
+    """lines of the bodies of F0..F{nfn-1} in the non-minified program text"""
+    lines = js.split("\n")
+    res = {}
+    for i, l in enumerate(lines):
+        m = re.match(r"^(\t+)F(\d+) = function[^(]*\(", l)
+        if m and l.rstrip().endswith("{"):
+            ind = m.group(1)
+            j = i + 1
+            body = []
+            while j < len(lines) and not lines[j].startswith(ind + "};"):
+                body.append(lines[j])
+                j += 1
+            res[int(m.group(2))] = (ind, body)
+    return [res.get(i) for i in range(nfn)]
+
+
+def js_skeleton(fn, labels):
+    """token list of one emitted function (see GV.Direct.skel) plus the temp-variable names per op-assign action.
+    Lines inside nested function literals are skipped; only statement lines of the function itself count."""
+    if fn is None:
+        return None, None
+    ind, body = fn
+    base = len(ind) + 1
+    lab_of = {}
+    for n, name in labels.items():
+        lab_of[name] = n
+        lab_of[name + "$"] = n
+    toks = []
+    tmps = {}
+    last_act = None
+    skip_deeper = None
+    pending_tmps = []
+    for raw in body:
+        depth = len(raw) - len(raw.lstrip("\t"))
+        l = raw.strip()
+        if not l or l.startswith("/*") and l.endswith("*/"):
+            continue
+        if skip_deeper is not None:
+            if depth > skip_deeper:
+                continue
+            # the closing line of the literal (`}));`, `})(a, b));`) is indented one level deeper than its opening line,
+            # so it has been skipped already; this line is the next statement
+            skip_deeper = None
+        opens_fn = re.search(r"function[^(]*\([^)]*\) \{$", l) is not None
+        if opens_fn:
+            skip_deeper = depth
+
+        def lbl(x):
+            x = x.strip()
+            if x == "":
+                return ""
+            return str(lab_of.get(x, "?" + x))
+        m = _LABEL_LINE.match(l)
+        if m and not opens_fn:
+            toks.append("L%s:" % lbl(m.group(1)))
+            last_act = None
+            continue
+        if l == "while (true) {":
+            toks.append("W{"); last_act = None; continue
+        if l == "switch (0) { default:":
+            toks.append("S{"); last_act = None; continue
+        m = re.match(r"^if \(!\((.*)\)\) \{ break; \}$", l)
+        if m:
+            c = [x for x in _MARK.findall(m.group(1)) if x[0] in ("cnd", "cnq")]
+            toks.append("NB%s" % (c[0][1] if c else "?")); last_act = None; continue
+        m = re.match(r"^(\} else )?if \((.*)\) \{$", l)
+        if m and not opens_fn:
+            c = [x for x in _MARK.findall(m.group(2)) if x[0] in ("cnd", "cnq")]
+            cid = c[0][1] if c else "?"
+            toks.append(("}EI%s{" if m.group(1) else "I%s{") % cid); last_act = None; continue
+        if l == "} else {":
+            toks.append("}E{"); last_act = None; continue
+        if l == "}":
+            toks.append("}"); last_act = None; continue
+        m = re.match(r"^break( [^;]+)?;$", l)
+        if m:
+            toks.append("B" + lbl(m.group(1) or "")); last_act = None; continue
+        m = re.match(r"^continue( [^;]+)?;$", l)
+        if m:
+            toks.append("C" + lbl(m.group(1) or "")); last_act = None; continue
+        if re.match(r"^return\b.*;$", l) and depth == base:
+            toks.append("R"); last_act = None; continue
+        if re.match(r"^return\b.*;$", l):
+            toks.append("R"); last_act = None; continue
+        if l.startswith("var "):
+            continue
+        td = _TMPDEF.findall(l)
+        marks = _MARK.findall(l)
+        ids = []
+        for name, n in marks:
+            if name in ("cnd", "cnq"):
+                continue
+            t = ("f%d" % int(n)) if name == "cl" else ("a%d" % (int(n) % 1000))
+            if t not in ids:
+                ids.append(t)
+        if not ids:
+            # an unmarked statement line (temporaries of shadow blocks, `_tuple = …` continuation lines …)
+            continue
+        if len(ids) > 1:
+            toks.append("?multi:" + ",".join(ids))
+            last_act = None
+            continue
+        t = ids[0]
+        if td:
+            tmps.setdefault(t, [])
+            tmps[t] += td
+        if t != last_act:
+            toks.append(t)
+            last_act = t
+    return toks, tmps
+
+
+# ======================================================================================
+# the check
+# ======================================================================================
+
+THEOREMS = ["direct_correct", "direct_unique", "direct_correct_ctx", "interp_sound_js", "drivers_agree",
+            "desugar_once", "desugar_incdec_once", "spec_trace", "desugar_trace", "naive_rewrite_wrong",
+            "names_distinct_plain", "names_fresh_plain", "renderInj_ascii", "names_distinct_plain_ascii", "render_clash",
+            "encodeIdent_ascii_id"]
+ENV_THEOREMS = ["reserved_covers_es", "reserved_model_exact", "reserved_misses_console", "reserved_covers_used_counterexample",
+                "reserved_covers_used_partial"]
 
 JOB_TIMEOUT = 300
 
@@ -108,9 +864,14 @@ def witness_jobs():
     jobs = []
     for wid, sig, src in WITNESSES:
         jobs.append({"id": "w_" + wid, "files": {"main.go": src}, "variants": ["plain"], "native": True, "timeout": JOB_TIMEOUT})
+    # the hand-written corpus is ONE program (one native build): every case is a function, run in order
+    parts, calls = [], []
     for cid, body in CORPUS.items():
-        jobs.append({"id": "c_" + cid, "files": {"main.go": HDR + body + "\n"}, "variants": ["plain"], "native": True,
-                     "timeout": JOB_TIMEOUT})
+        parts.append(body.replace("func main()", "func case_%s()" % cid))
+        calls.append('\tprintln("== %s")\n\tcase_%s()' % (cid, cid))
+    src = HDR + "\n\n".join(parts) + "\n\nfunc main() {\n" + "\n".join(calls) + "\n}\n"
+    jobs.append({"id": "c_corpus", "files": {"main.go": src}, "variants": ["plain"], "native": True, "timeout": JOB_TIMEOUT,
+                 "keep_js": True})
     return jobs
 
 
